@@ -588,7 +588,9 @@ impl<'a> KMergeIterator<'a> {
 			} else {
 				// Level 1+: Tables have non-overlapping key ranges, use binary search
 				let start_idx = level.find_first_overlapping_table(&query_range);
-				let end_idx = level.find_last_overlapping_table(&query_range);
+				// An inverted query range (start > end) selects nothing; without the
+				// clamp the slice below would panic.
+				let end_idx = level.find_last_overlapping_table(&query_range).max(start_idx);
 
 				for table in &level.tables[start_idx..end_idx] {
 					// Skip tables outside timestamp range (if specified)
